@@ -31,11 +31,11 @@ from torch import nn
 
 
 def my_act(x: torch.Tensor) -> torch.Tensor:
-    return x * torch.sigmoid(1.702 * x)
+    return F.gelu(x, approximate="tanh")
 
 
 def my_act2(x: torch.Tensor) -> torch.Tensor:
-    return torch.tanh(x) * x
+    return F.silu(x) * 1.5
 
 
 def my_proj(x: torch.Tensor, w: torch.Tensor) -> torch.Tensor:
@@ -403,6 +403,8 @@ class Reference:
         if op in ("u_gelu", "uu_gelu"):
             return U.gelu(a[0], **(ckw if us else {}))
         if op in ("silu", "nn_silu"):
+            if us and "F.silu" in self.replace:  # a user replacement of a mapped torch function wins
+                return getattr(U, self.replace["F.silu"])(a[0], **ckw)
             return U.silu(a[0], **ckw) if us else F.silu(a[0])
         if op == "u_silu":
             return U.silu(a[0], **(ckw if us else {}))
@@ -470,6 +472,12 @@ class Reference:
                 if st.get("w"):
                     return fn(a[0], getattr(mod, st["w"]), **kw2)
                 return fn(a[0], **kw2)
+            if us and st["fn"] == "my_act":
+                # not replaced: the helper is traced through, the recipe applies inside it
+                return U.gelu(a[0], approximate="tanh", **ckw)
+            if us and st["fn"] == "my_act2":
+                inner = getattr(U, self.replace["F.silu"]) if "F.silu" in self.replace else U.silu
+                return inner(a[0], **ckw) * 1.5
             fn2 = HELPERS[st["fn"]]
             if st.get("w"):
                 return fn2(a[0], getattr(mod, st["w"]))
